@@ -18,7 +18,9 @@ ASSUMPTIONS = ["the schedule quantifier is proved for the model's atomicity gran
 RULE = ("N threads (8 quick, 8 and 32 thorough) with sys.setswitchinterval(1e-6) run the same programs (URL construction with escapes "
         "in every component, non-ASCII, IDN hosts, >8 KiB paths; accessor reads on a shared pool of URL objects; modifiers; join) against "
         "the shared module caches while a disturber thread calls cache_clear()/cache_configure(); both backends; every thread's "
-        "observation of every program must equal the extracted model's sequential observation; distinct = distinct program")
+        "observation of every program must equal the extracted model's sequential observation; derivation from a shared fresh object by pairs of "
+        "threads using the same modifier, and one modifier hammered from four threads on one object (results equal the sequential one, nothing "
+        "leaks); distinct = distinct program")
 
 
 def programs(ctx):
